@@ -469,6 +469,10 @@ func genC16(r *rng, tier string, emit func(string)) {
 		emit(fmt.Sprintf("resume %s 2 s:0:%s;c:0:%s:0:n;d:0:1;c:0:%s:0:n;d:0:0;c:0:%s:0:n", mode, s1, s1, s1, s1))
 		emit(fmt.Sprintf("resume %s 3 s:0:%s;c:0:%s:0:n;k:0:7+100;c:0:%s:0:n;k:0:8+7;c:0:%s:0:n;k:0:8;c:0:%s:0:n;c:0:%s:0:n", mode, s1, s1, s1, s1, s1, s1))
 		emit(fmt.Sprintf("resume %s 3 s:0:%s;a:0:4;c:0:%s:1:n;k:0:7+100;c:0:%s:1:n;k:0:7;c:0:%s:1:n;a:0:0;c:0:%s:1:n", mode, s1, s1, s1, s1, s1))
+		// the key list grows and then shrinks with no connection in between: the ticket still sits under a key that
+		// was at the END of the longer list and is in no list any more
+		emit(fmt.Sprintf("resume %s 2 s:0:%s;c:0:%s:0:n;k:0:7+100;k:0:8;c:0:%s:0:n;c:0:%s:0:n", mode, s1, s1, s1, s1))
+		emit(fmt.Sprintf("resume %s 2 s:0:%s;c:0:%s:0:n;k:0:7+6+100;k:0:8+9;c:0:%s:0:n;k:0:5+4+3+8;k:0:2;c:0:%s:0:n;c:0:%s:0:n", mode, s1, s1, s1, s1, s1))
 		if mode == "tls" { // a ticket of one protocol version is never resumed on a connection of another
 			emit("resume tls 2 s:0:2f;c:0:2f:0:n;c:0:2f:0:n;v:0:0302;c:0:2f:0:n;c:0:2f:0:n;v:0:0303;c:0:2f:0:n;c:0:2f:0:n")
 			emit("resume tls 2 s:0:2f;v:0:0301;c:0:2f:0:n;c:0:2f:0:n;v:0:0303;c:0:2f:0:n;v:0:0302;c:0:2f:0:n;c:0:2f:0:n")
